@@ -640,7 +640,7 @@ def _plain(o):
     return ("object", type(o).__name__)
 
 
-def _related_call(i, variant):
+def _related_call(i, variant, keep=None):
     tab = mutation_table()[0]
     name, f, args = tab[i]
     cur = _related_args(args, variant)
@@ -651,7 +651,10 @@ def _related_call(i, variant):
     try:
         with contextlib.redirect_stdout(io.StringIO()), warnings.catch_warnings():
             warnings.simplefilter("ignore")
-            return ("ok", _plain(f(*qa)))
+            raw = f(*qa)
+            if keep is not None:
+                keep.append((variant, raw))          # the caller keeps what it was given
+            return ("ok", _plain(raw))
     except (ValueError, ZeroDivisionError, np.linalg.LinAlgError, RuntimeError) as e:
         return ("exc", type(e).__name__)
 
@@ -679,13 +682,19 @@ def _related_history(args):
     i, refs = args
     name = mutation_table()[0][i][0]
     out = []
+    kept, snaps = [], {}
     for v in RELATED:
-        got = _related_call(i, v)
+        got = _related_call(i, v, keep=kept)
         if got is None:
             continue
+        if got[0] == "ok":
+            snaps[v] = got[1]
         want = pickle.loads(refs[(i, v.replace("-again", ""))])
         same = got[0] == want[0] and (_numeric_close(want[1], got[1]) if got[0] == "ok" else got[1] == want[1])
         out.append({"ev": "Related", "fn": name, "variant": v, "same": bool(same), "outcome": got[0] if got[0] == "ok" else got[1], "reference": want[0] if want[0] == "ok" else want[1]})
+    # what was returned EARLIER still holds the same values after all the later calls (no shared output buffer)
+    intact = all(_numeric_close(snaps[v], _plain(raw), rtol=0.0) for v, raw in kept if v in snaps)
+    out.append({"ev": "Returned", "fn": name, "same": bool(intact), "retained_results": len(kept)})
     return out
 
 
